@@ -53,7 +53,9 @@ def _pair(st, prefix, matches, category="cat"):
 
 def _base_stubs():
     return {
-        "MatchTok.group": lambda it, st, a, k, n: [(st, "val", st.obj(a[0]).fields[a[1]])],
+        # match.group(name) / match.group(name1, name2, ...) as re does: one value, or a tuple of values
+        "MatchTok.group": lambda it, st, a, k, n: [(st, "val", st.obj(a[0]).fields[a[1]] if len(a) == 2 else
+                                                    tuple(st.obj(a[0]).fields[x] for x in a[1:]))],
         "ValueTok.matches": lambda it, st, a, k, n: [(st, "val", a[1] == "v-y")],
         "ProviderTok.get": lambda it, st, a, k, n: [(st, "val", st.obj(a[0]).fields["value"])],
     }
